@@ -81,6 +81,10 @@ pub struct LiveOpts {
     pub pps: u64,
     pub no_quality: bool,
     pub no_stall: bool,
+    /// client sends in bursts of 48 back-to-back datagrams (same average rate)
+    pub burst: bool,
+    /// data loss (per mille) applied inside the receiver model (NAK / retransmission-free gaps)
+    pub loss_permille: u64,
     pub bin: PathBuf,
     /// command prefix for sanitizer lanes (e.g. valgrind ...); empty = run the binary directly
     pub wrapper: Vec<String>,
@@ -373,6 +377,7 @@ impl Session {
         let mut sim = SimReceiver::new();
         sim.max_delay = *rng.pick(&[0u64, 2, 8, 25]);
         sim.forget_group_answers_err = false;
+        sim.loss_permille = o.loss_permille;
         let t0 = now_us();
         let magic = rng.next_u32() | 1;
         let base_seq = rng.next_u32() & 0x3fff_ffff;
@@ -895,6 +900,27 @@ impl Session {
             10 => vec![0x91, 0x00],
             _ => vec![rng.below(256) as u8], // 1 byte: outside the property, must only not crash
         };
+        // one time in eight the same datagram kind arrives as a back-to-back burst (recvmmsg batches, drain budget)
+        let copies = if self.rng.chance(1, 8) { 5 + self.rng.usize_below(66) } else { 1 };
+        for c in 1..copies {
+            let mut b = bytes.clone();
+            if b.len() >= 10 && !rc::is_srtla_internal_return(&b) {
+                // keep burst members distinct
+                let n = b.len();
+                b[n - 1] ^= c as u8;
+                b[n - 2] ^= 0xa5;
+            }
+            if self.rx.as_ref().is_some_and(|s| s.send_to(&b, addr).is_ok()) {
+                self.count("C09.hostile_datagrams_sent");
+                self.count("C09.hostile_burst_members");
+                if rc::ptype(&b) == Some(rc::T_REG3) && self.sending {
+                    self.reg3_while_sending += 1;
+                }
+                if b.len() >= 2 {
+                    self.note_return_sent(li, &b);
+                }
+            }
+        }
         let ok = self.rx.as_ref().is_some_and(|s| s.send_to(&bytes, addr).is_ok());
         if ok {
             if rc::ptype(&bytes) == Some(rc::T_REG3) && self.sending {
@@ -1440,7 +1466,18 @@ impl Session {
                 let now = now_us();
                 let gap = 1_000_000 / self.o.pps.max(1);
                 let mut burst = 0;
-                while self.next_send_us <= now && burst < 64 {
+                if self.o.burst && self.next_send_us <= now {
+                    // one burst of 48, then silence for 48 gaps
+                    for _ in 0..48 {
+                        let k = self.sent.len() as u64;
+                        let d = client_datagram(self.magic, self.base_seq, k);
+                        let ok = self.client.send_to(&d, self.srt_addr).is_ok();
+                        self.sent.push(Sent { t_us: now, delivered: 0, countable: ok && !self.disturbed, on: [255; 4] });
+                    }
+                    self.client_known = true;
+                    self.next_send_us = now + 48 * gap;
+                }
+                while !self.o.burst && self.next_send_us <= now && burst < 64 {
                     let k = self.sent.len() as u64;
                     let d = client_datagram(self.magic, self.base_seq, k);
                     let ok = self.client.send_to(&d, self.srt_addr).is_ok();
@@ -1626,6 +1663,8 @@ impl Session {
             "mode": if self.o.classic { "classic" } else { "enhanced" },
             "timeout_ms": self.o.timeout_ms,
             "pps": self.o.pps,
+            "burst": self.o.burst,
+            "receiver_model_loss_permille": self.o.loss_permille,
             "sender_ticks": self.ticks,
             "client_datagrams": self.sent.len(),
             "delivered": self.sent.iter().filter(|s| s.delivered > 0).count(),
@@ -1659,6 +1698,8 @@ pub fn gen_opts(rng: &mut Rng, scenario: Scenario, bin: &std::path::Path) -> Liv
         pps: *rng.pick(&[200u64, 800, 2000]),
         no_quality: rng.chance(1, 4),
         no_stall: rng.chance(1, 4),
+        burst: rng.chance(1, 3),
+        loss_permille: *rng.pick(&[0u64, 0, 10, 40]),
         bin: bin.to_path_buf(),
         wrapper: Vec::new(),
         slow: 1,
